@@ -171,5 +171,28 @@ func lExtras3(seed int64, from int, n int) []lHist {
 		id := from + len(out)
 		out = append(out, lScenario3(NewRng(uint64(seed)+3000017, uint64(id)), id, j))
 	}
-	return out
+	return append(out, ledgerCorpus4()...) // after the drawn scenarios, so that those keep their ids
+}
+
+// ledgerCorpus4: the pool RECORD is rewritten by a message that moves nothing (the price feeder's external-liquidity report) in the
+// SAME block as, and AFTER, operations that changed the pool (join, exit, leveraged open, swap): the generator only places such reports
+// at the start of a block. The first feed_ext of a history is the governance registration of the feeder, the later ones are reports;
+// feed_ext never closes a block, "blocks" does.
+func ledgerCorpus4() []lHist {
+	same := func(two bool, q int) lHist {
+		return lHist{Two: two, Ops: []lOp{
+			// state-changing ops at EVEN indices (a block is closed after every other op with an odd index)
+			{Op: "feed_ext", U: 1, Dir: 0, Rel: 1, Q: q}, {Op: "blocks", N: 1, DT: 5},
+			{Op: "join", U: 1, Pool: 0, Dir: 1, Amt: "250000000", Q: q}, {Op: "feed_ext", U: 1, Dir: 0, Rel: 2, Q: q},
+			{Op: "exit", U: 1, Pool: 0, Rel: 2, Q: q}, {Op: "feed_ext", U: 2, Dir: 1, Rel: 3, Q: q},
+			{Op: "lev_open", U: 2, Amt: "300000000", Lev: "3", P: "0", Q: q}, {Op: "feed_ext", U: 2, Dir: 2, Rel: 4, Q: q},
+			{Op: "blocks", N: 1, DT: 5}, {Op: "feed_ext", U: 3, Dir: 0, Rel: 5, Q: q},
+			{Op: "swap_in", U: 3, V: 0, Dir: 0, Amt: "40000000", Q: q}, {Op: "feed_ext", U: 3, Dir: 0, Rel: 5, Q: q},
+			{Op: "join", U: 3, Pool: 0, Dir: 0, Amt: "90000000", Q: q}, {Op: "feed_ext", U: 3, Dir: 2, Rel: 0, Q: q},
+			{Op: "blocks", N: 1, DT: 3700}, {Op: "feed_ext", U: 2, Dir: 1, Rel: 1, Q: q},
+			{Op: "lev_close", U: 2, Idx: 0, Rel: 5}, {Op: "feed_ext", U: 2, Dir: 1, Rel: 1, Q: q},
+			{Op: "exit", U: 3, Pool: 0, Rel: 5, Q: q}, {Op: "feed_ext", U: 1, Dir: 0, Rel: 6, Q: q},
+			{Op: "blocks", N: 1, DT: 5}}}
+	}
+	return []lHist{same(false, 0), same(true, 1)}
 }
